@@ -272,6 +272,7 @@ C08_NT(ev) == TRUE
 \* ... and what the input spells is character data, literally: text that looks like an entity or a character reference
 \* must read back as that text, not as the character it would denote (the event carries the payload runs)
 C08v_OK(ev) ==
+  /\ ev.doc.wf = 1            \* (an ill-formed document has no text or style to look at: C08 itself fails on it)
   /\ \A i \in 1..Len(ev.expect_text) : SomeTextIs(ev.doc, Shown(ev.expect_text[i]))
   /\ \A i \in 1..Len(ev.expect_style) : AnyStyleLineContains(ev.doc, Shown(ev.expect_style[i]))
 
